@@ -30,7 +30,7 @@ P_SCRIPT = world.profile(party={"scripted": 3, "uncontrolled": 2}, constraints={
                          noise=0.0, stations=(2, 6))
 P_SORTED = world.profile(party={"greedy": 1}, evse_kinds={"finite": 1}, constraints={"three": 4, "single": 1},
                          binding=(0.15, 0.8), estimator={"none": 1}, uninterrupted=0.4, noise=0.0, hot=0.1, stations=(2, 6),
-                         heterovolt=0.9)
+                         heterovolt=0.9, sorted_max_recompute=[1, 1, 1, 2, 3, None])
 
 
 def gen(rs, tier):
